@@ -162,7 +162,7 @@ pub fn flat_module(c: &ChildCase) -> String {
     for assign in 0..2i64 {
         let tv = move |m: &FMem| 1000 * (m.orig as i64 + 1) + assign * 37;
         let sv = move |m: &FMem| 100_000 + 1000 * (m.orig as i64 + 1) + assign * 41;
-        let s_lit = format!("S {{ {} }}", c.members.iter().map(|m| format!("{}: {}", m.name, sv(m))).collect::<Vec<_>>().join(", "));
+        let s_lit = c.s_literal(&sv);
         let a = assign.to_string();
         flavour_block(&mut o, &a, "S", "S", "T", "Tf", &c.node_literal("", "T", &tv, &|_| 4242), &c.node_literal("", "Tf", &tv, &|_| 4242), &s_lit, &s_lit, true);
         // every leaf of the nested counterpart is mapped: into_existing must make the existing value equal to `into`
